@@ -312,3 +312,45 @@ def reaching_def_nodes(ctx, f, at_node, name):
         if not hit:
             stack.extend(p for p, lab in n.preds)
     return out
+
+
+# ----------------------------------------------------------- inherited members
+def inherited_member_sites(ctx):
+    """[(func, node, ok, what, why)] for the code that fills a derived type's
+    inherited-member list: the source must be the parent's *full* member list
+    (own + inherited), taken after the parent's own inheritance was resolved."""
+    t = ctx.m.cname.get("Type")
+    if not t:
+        raise AnalysisError("class Type not found")
+    out = []
+    for nm, q in ctx.m.classes[t].methods.items():
+        f = ctx.m.funcs[q]
+        for lp in (n for n in ctx.m.walk_own(f.node) if isinstance(n, (ast.For, ast.ListComp))):
+            gens = [lp] if isinstance(lp, ast.For) else lp.generators
+            body_txt = unparse(lp)
+            fills = False
+            if isinstance(lp, ast.For):
+                fills = any(isinstance(c.func, ast.Attribute) and c.func.attr in ("append", "extend") and unparse(c.func.value) == "self.in_children" for c in calls_in(lp))
+            else:
+                st = ctx.m.enclosing_stmt(lp)
+                fills = isinstance(st, ast.Assign) and any(unparse(tg) == "self.in_children" for tg in st.targets)
+            if not fills:
+                continue
+            it = gens[0].iter
+            txt = unparse(it)
+            full = (isinstance(it, ast.Call) and isinstance(it.func, ast.Attribute) and it.func.attr == "get_children") or ("in_children" in txt and "children" in txt.replace("in_children", ""))
+            if isinstance(it, ast.Name):
+                ds = [v for _, v in defs_of(ctx, f, it.id) if v is not None]
+                full = bool(ds) and all((isinstance(v, ast.Call) and isinstance(v.func, ast.Attribute) and v.func.attr == "get_children") for v in ds)
+            out.append((f, lp, full, "members copied from the parent's full member list", f"the inherited members are taken from `{txt}`, which holds only the parent's own components: members the parent itself inherited are lost from the second EXTENDS level on (definition and completion on obj%grandparent_component fail)"))
+            # parent resolved first
+            src = txt
+            if isinstance(it, ast.Name):
+                ds = [v for _, v in defs_of(ctx, f, it.id) if v is not None]
+                src = unparse(ds[0]) if ds else txt
+            parent = src.split(".get_children")[0].split(".children")[0]
+            pre = [c for c in calls_in(f.node) if isinstance(c.func, ast.Attribute) and c.func.attr == "resolve_inherit" and unparse(c.func.value) == parent and c.lineno < lp.lineno]
+            out.append((f, lp, bool(pre), "parent's inheritance resolved before its members are copied", f"`{parent}.resolve_inherit(...)` is not called before the copy: whether grandparent members arrive depends on the order in which types are resolved"))
+    if not out:
+        raise AnalysisError("no code filling Type.in_children found")
+    return out
